@@ -202,4 +202,37 @@ theorem putBody_accepts (cfg : Cfg) (src : List (String × Port)) (ports : Strin
     rw [upd_other _ _ _ _ hne]
     exact h y (List.mem_cons_of_mem _ hy)
 
+theorem firstInvalid_spec (docs : List (Option (String × Slave))) (i j : Nat) (h : firstInvalid docs i = some j) :
+    i ≤ j ∧ docs[j - i]? = some none ∧ ∀ m, m < j - i → ∃ x, docs[m]? = some (some x) := by
+  induction docs generalizing i with
+  | nil => simp [firstInvalid] at h
+  | cons d r ih =>
+    cases d with
+    | none =>
+      simp only [firstInvalid, Option.some.injEq] at h
+      subst h
+      refine ⟨Nat.le_refl _, by simp, ?_⟩
+      intro m hm; omega
+    | some x =>
+      simp only [firstInvalid] at h
+      obtain ⟨h1, h2, h3⟩ := ih (i + 1) h
+      refine ⟨by omega, ?_, ?_⟩
+      · have : j - i = (j - (i + 1)) + 1 := by omega
+        rw [this, List.getElem?_cons_succ]; exact h2
+      · intro m hm
+        cases m with
+        | zero => exact ⟨x, by simp⟩
+        | succ m =>
+          rw [List.getElem?_cons_succ]
+          exact h3 m (by omega)
+
+theorem firstInvalid_none (docs : List (Option (String × Slave))) (i : Nat) (h : ∀ d ∈ docs, d ≠ none) :
+    firstInvalid docs i = none := by
+  induction docs generalizing i with
+  | nil => rfl
+  | cons d r ih =>
+    cases d with
+    | none => exact absurd rfl (h none List.mem_cons_self)
+    | some x => simp only [firstInvalid]; exact ih (i + 1) (fun d hd => h d (List.mem_cons_of_mem _ hd))
+
 end QtVerif.Backup
